@@ -111,11 +111,23 @@ def mono_expr(mono):
 
 
 def _max_case(expr):
-    from utils import get_max_case_in_piecewise
+    """largest k of a special case `n <= k` (sympy merges equal consecutive cases into `(n <= 0) | (n <= 1)`,
+    which Polar's own get_max_case_in_piecewise does not look into)"""
+    import sympy
+    k = -1
     try:
-        return int(get_max_case_in_piecewise(expr))
+        for rel in sympy.sympify(expr).atoms(sympy.LessThan, sympy.StrictLessThan):
+            lhs, rhs = rel.args
+            if getattr(lhs, "name", None) == "n" and rhs.is_Integer:
+                k = max(k, int(rhs) if isinstance(rel, sympy.LessThan) else int(rhs) - 1)
     except Exception:
-        return -2
+        pass
+    try:
+        from utils import get_max_case_in_piecewise
+        k = max(k, int(get_max_case_in_piecewise(expr)))
+    except Exception:
+        pass
+    return k
 
 
 def typedefs_dump(program):
